@@ -5,8 +5,10 @@
 package ucops
 
 import (
+	"bytes"
 	"context"
 	"encoding/hex"
+	"encoding/json"
 	"errors"
 	"fmt"
 	"net"
@@ -15,6 +17,10 @@ import (
 	"strings"
 	"time"
 
+	"github.com/rs/zerolog"
+
+	"github.com/sergeii/swat4master/cmd/swat4master/components/refresher"
+	"github.com/sergeii/swat4master/cmd/swat4master/components/reviver"
 	"github.com/sergeii/swat4master/internal/cleanup"
 	"github.com/sergeii/swat4master/internal/cleanup/cleaners/instancecleaner"
 	"github.com/sergeii/swat4master/internal/cleanup/cleaners/servercleaner"
@@ -29,11 +35,9 @@ import (
 	"github.com/sergeii/swat4master/internal/core/usecases/addserver"
 	"github.com/sergeii/swat4master/internal/core/usecases/listservers"
 	"github.com/sergeii/swat4master/internal/core/usecases/probeserver"
-	"github.com/sergeii/swat4master/internal/core/usecases/refreshservers"
 	"github.com/sergeii/swat4master/internal/core/usecases/removeserver"
 	"github.com/sergeii/swat4master/internal/core/usecases/renewserver"
 	"github.com/sergeii/swat4master/internal/core/usecases/reportserver"
-	"github.com/sergeii/swat4master/internal/core/usecases/reviveservers"
 	"github.com/sergeii/swat4master/internal/prober/probers"
 	"github.com/sergeii/swat4master/internal/prober/probers/detailsprober"
 	"github.com/sergeii/swat4master/internal/prober/probers/portprober"
@@ -296,6 +300,26 @@ func errTag(err error) string {
 	return storeops.ErrClass(err)
 }
 
+// cycleResult renders what a refresher / reviver cycle logged: "ok:<count>" or the error class.
+func cycleResult(logged string) string {
+	for _, line := range strings.Split(strings.TrimSpace(logged), "\n") {
+		var m map[string]any
+		if json.Unmarshal([]byte(line), &m) != nil {
+			continue
+		}
+		if lvl, _ := m["level"].(string); lvl == "warn" || lvl == "error" {
+			if e, _ := m["error"].(string); strings.Contains(e, "injected storage fault") {
+				return "err:storage"
+			}
+			return "err:cycle"
+		}
+		if c, ok := m["count"].(float64); ok {
+			return fmt.Sprintf("ok:%d", int(c))
+		}
+	}
+	return "ok:0"
+}
+
 // Client returns the operation for a client spec:
 //
 //	report|<addr>|<queryport>|<idhex>|<hostnamehex>|<numplayers>     reportserver.Execute (fields always valid)
@@ -349,27 +373,25 @@ func Client(spec string) func(p *world.Proc) string {
 			return errTag(p.UC.ProbeServer.Execute(ctx, probeserver.NewRequest(prb, pr, time.Second)))
 		}
 	case "refresh":
+		// one cycle of the refresher component (its own deadline computation), count read from its log line
 		return func(p *world.Proc) string {
 			iv, _ := strconv.ParseInt(parts[1], 10, 64)
-			deadline := p.W.Clock.Now().Add(time.Duration(iv))
-			res, err := p.UC.RefreshServers.Execute(ctx, refreshservers.NewRequest(deadline))
-			if err != nil {
-				return errTag(err)
-			}
-			return fmt.Sprintf("ok:%d", res.Count)
+			var buf bytes.Buffer
+			lg := zerolog.New(&buf)
+			refresher.VerifRefresh(ctx, p.W.Clock, &lg, p.UC.RefreshServers, refresher.Config{RefreshInterval: time.Duration(iv)})
+			return cycleResult(buf.String())
 		}
 	case "revive":
+		// one cycle of the reviver component (its own scope / countdown / deadline computation)
 		return func(p *world.Proc) string {
 			iv, _ := strconv.ParseInt(parts[1], 10, 64)
 			scope, _ := strconv.ParseInt(parts[2], 10, 64)
 			cd, _ := strconv.ParseInt(parts[3], 10, 64)
-			now := p.W.Clock.Now()
-			req := reviveservers.NewRequest(now.Add(-time.Duration(scope)), now.Add(-time.Duration(iv)), now, now.Add(time.Duration(cd)), now.Add(time.Duration(iv)))
-			res, err := p.UC.ReviveServers.Execute(ctx, req)
-			if err != nil {
-				return errTag(err)
-			}
-			return fmt.Sprintf("ok:%d", res.Count)
+			var buf bytes.Buffer
+			lg := zerolog.New(&buf)
+			reviver.VerifRevive(ctx, p.W.Clock, &lg, p.UC.ReviveServers, reviver.Config{
+				RevivalInterval: time.Duration(iv), RevivalScope: time.Duration(scope), RevivalCountdown: time.Duration(cd)})
+			return cycleResult(buf.String())
 		}
 	case "addserver":
 		return func(p *world.Proc) string {
